@@ -1,6 +1,6 @@
 #!/bin/bash
 # lib/bentest_parallel.sh <N> [ids...] -- run lib/bentest.py over the property-preserving refactors in N private sandboxes
-# (/tmp/s-bt<k>) in parallel and merge their results into /verif/seeded/benign/RESULTS.json. Never touches /repo.
+# (/tmp/s-${BT_PREFIX:-bt}<k>) in parallel and merge their results into /verif/seeded/benign/RESULTS.json. Never touches /repo.
 set -e
 n=${1:-5}; shift || true
 cd /verif
@@ -9,23 +9,24 @@ declare -a L; i=0
 for s in $ids; do k=$((i % n)); L[$k]="${L[$k]} $s"; i=$((i+1)); done
 pids=""
 for k in $(seq 0 $((n-1))); do
-  lib/sandbox.sh /tmp/s-bt$k >/dev/null
-  ( cd /tmp/s-bt$k/verif && VERIF_REPO=/tmp/s-bt$k/repo python3 lib/bentest.py ${L[$k]} > /tmp/bentest-par-$k.log 2>&1 ) &
+  lib/sandbox.sh /tmp/s-${BT_PREFIX:-bt}$k >/dev/null
+  ( cd /tmp/s-${BT_PREFIX:-bt}$k/verif && VERIF_REPO=/tmp/s-${BT_PREFIX:-bt}$k/repo python3 lib/bentest.py ${L[$k]} > /tmp/bentest-${BT_PREFIX:-bt}-$k.log 2>&1 ) &
   pids="$pids $!"
 done
 wait $pids
 python3 - "$n" <<'PY'
-import json, sys
+import json, os, sys
 n = int(sys.argv[1])
 base = '/verif/seeded/benign/RESULTS.json'
 r = json.load(open(base))
 for k in range(n):
-    d = json.load(open(f'/tmp/s-bt{k}/verif/seeded/benign/RESULTS.json'))
-    log = open(f'/tmp/bentest-par-{k}.log').read()
+    pre = os.environ.get('BT_PREFIX', 'bt')
+    d = json.load(open(f'/tmp/s-{pre}{k}/verif/seeded/benign/RESULTS.json'))
+    log = open(f'/tmp/bentest-{pre}-{k}.log').read()
     for bid, v in d.items():
         if bid != '_note' and (bid + ' ') in log:
             r[bid] = v
 json.dump(r, open(base, 'w'), indent=1, sort_keys=True)
 print({k: list(v.keys()) for k, v in r.items() if v and k != '_note'})
 PY
-for k in $(seq 0 $((n-1))); do rm -rf /tmp/s-bt$k; done
+for k in $(seq 0 $((n-1))); do rm -rf /tmp/s-${BT_PREFIX:-bt}$k; done
